@@ -19,7 +19,8 @@ K_TARGETS = ["model/Recovery.vo"]
 TRUSTED = ["harness uigen in omit mode + xml.etree; the erasure of the faulted object's own values is implemented in vlib/c20.py as stated in props/C20.v's header",
            "faults that are syntax errors (tree-sitter recovery) are outside this check (C07 covers totality)"]
 
-BINDING_FAULTS = ["unknown-property", "ill-typed", "unknown-signal", "unknown-attached-property", "unknown-attached-type", "duplicate", "duplicate-attached", "map-on-scalar"]
+BINDING_FAULTS = ["unknown-property", "ill-typed", "unknown-signal", "unknown-attached-property", "unknown-attached-type", "duplicate", "duplicate-attached", "map-on-scalar",
+                  "ill-typed-attached"]
 OBJECT_FAULTS = ["unknown-object-type", "invalid-object-type"]
 
 
@@ -92,6 +93,12 @@ def plant(rng, root):
         o["faults"].append({"key": kind, "text": "QLayout.fooBar: 1"})
     elif kind == "unknown-attached-type":
         o["faults"].append({"key": kind, "text": "QFooBar.row: 1"})
+    elif kind == "ill-typed-attached":
+        # an existing attached property with a value of the wrong type, whether or not the parent reads that property (a box layout reads no column stretch,
+        # a plain widget reads nothing): reported either way
+        used = {m["name"] for a, ms in o["attached"] if a == "ALayout" for m in ms}
+        free = [n for n in ("columnStretch", "rowStretch", "columnMinimumWidth", "rowMinimumHeight") if n not in used] or ["columnStretch"]
+        o["faults"].append({"key": kind, "text": 'QLayout.%s: "wide"' % rng.choice(free)})
     elif kind == "map-on-scalar":
         o["faults"].append({"key": kind, "text": "objectName { x: 1 }"})
     elif kind == "duplicate":
@@ -269,7 +276,7 @@ def run(ctx):
         for x in U.walk(root):
             x["oid"] = x["id"]
         kind, o, bad, good = plant(rng, root)
-        if kind.split("+")[0] in OBJECT_FAULTS or kind == "ill-typed":
+        if kind.split("+")[0] in OBJECT_FAULTS or kind.startswith("ill-typed"):
             continue
         kroots.append(bad)
         kdocs.append(U.render(bad))
